@@ -296,8 +296,52 @@ def d5(ctx, F):
     c05.d3(ctx, F)
 
 
+def d6_tagged_request_fits(ctx, F):
+    """quantifier clause "requests that fit the limit only before the server adds its routing tag": the request/reply router adds the
+    `cid` header to a request that was within the frame limit when it arrived; the tagged frame may exceed it, the replier's sink would
+    then refuse it at encoding time and the router would take that for a failed replier. The tagged request must therefore pass a
+    length test against the limit before it is buffered for the replier."""
+    from . import routers
+    LIMIT = 1048576
+    cfg, init, me = routers.config(F, "reqrep")
+    b = cfg.body
+    tags = [c for c in b.calls() if strip_generics(c.callee) == "std::collections::hash::map::HashMap::insert" and len(c.args) > 1 and
+            (lambda r: r[0] == "const" and flow.const_of(r[1]) == "cid")(flow.root(b, c.args[1]))]
+    if not ctx.check(len(tags) == 1, "C11.D6.tagged-request-fits", "reqrep:no-tag-site", "the router adds the `cid` routing header at exactly one site", b.span):
+        return
+    tag = tags[0]
+    frames = [(i, pl, rv, s) for i, j, pl, rv, s in K.aggregates(b, FRAME) if rv["variant"] == "Message" and b.dominates(tag.bb, i)]
+    guards = []
+    for i, bl in enumerate(b.blocks):
+        sc = flow.switch_condition(b, i)
+        if not (sc and sc.get("kind") == "cmp"):
+            continue
+        for val, lim, op in ((sc["a"], sc["b"], sc["op"]), (sc["b"], sc["a"], flow._FLIP[sc["op"]])):
+            rl = flow.root(b, lim) if lim.get("k") != "const" else ("const", lim)
+            if rl[0] == "const" and flow.const_of(rl[1]) == LIMIT and val.get("k") in ("copy", "move"):
+                ps = flow.payload_source(b, val) or flow.root(b, val)
+                if ps[0] == "call" and strip_generics(ps[1].callee) == "selium_protocol::frame::Frame::get_length":
+                    within = sc["true"] if op in ("Le", "Lt") else sc["false"]
+                    guards.append((i, within, ps[1], op))
+    ok = False
+    where = tag.span
+    for i, pl, rv, s in frames:
+        fl = pl["l"]
+        fv = flow.derived(b, {fl}, calls=())
+        somes = [(i2, s2) for i2, j2, pl2, rv2, s2 in K.aggregates(b, "core::option::Option") if rv2["variant"] == "Some" and any(op_local(o) in fv for o in rv2["ops"])]
+        for gi, within, glc, op in guards:
+            measured = flow.root_local(b, glc.args[0])
+            if measured in fv or measured == fl:
+                if somes and all(b.dominates(within, i2) for i2, s2 in somes) and op in ("Le", "Gt"):
+                    ok = True
+        where = s["span"]
+    ctx.check(ok, "C11.D6.tagged-request-fits", "reqrep:tagged-request-unchecked",
+              "a request is buffered for the replier only after its length *with the routing tag* passed the frame limit (a request pushed over the limit by the tag is dropped, not held against the replier)", where)
+
+
 def run(ctx):
     F = ctx.facts("quick")
+    d6_tagged_request_fits(ctx, F)
     d1(ctx, F)
     d2(ctx, F)
     d3(ctx, F)
@@ -310,6 +354,11 @@ def run(ctx):
     # never dropped without its frame and close (K1 on the rejection slot, K10, K11); a request that could not be handed over is not kept
     # to be replayed against the next replier (K9 — one over-limit tagged request would otherwise unbind every replier in turn);
     # nothing accepted is dropped on the floor (K13)
+    # two first registrations of one name must end up on one router (C07.D5), and one stream's failure must not end the connection's
+    # accept loop (C17.D2 own-task): both leave an accepted peer unanswered
+    from . import c07, c17
+    c07.d5(ctx, F)
+    c17.d2(ctx, F)
     from . import routers
     for which in ("pubsub", "reqrep"):
         routers.report(ctx, F, which, "C11", lambda f: f.kind in ("K1", "K2", "K9", "K10", "K11", "K13"))
